@@ -78,8 +78,24 @@ def mk_app(fn, args=(), kw=()):
                 return sub(Const(1), mk_app("cdf", [mk_num(-p)]))
         if p is not None and p.is_const() and p.const_value() == 0:
             return Const(Fraction(1, 2))
+    if fn == "expand_dims" and len(args) == 1 and dict(kw or []).get("axis") == Const(0):
+        return mk_app("getitem", [args[0], Const(None)])
     if fn == "getitem" and len(args) == 2:
         base, idx = args
+        _full = App("slice", (Const(None), Const(None), Const(None)))
+        if isinstance(idx, Tup) and type(idx) is Tup and Const(Ellipsis) not in idx.items and idx.items and idx.items[-1] == _full:
+            # trailing full slices select everything: x[None, :] = x[None]
+            items = list(idx.items)
+            while items and items[-1] == _full:
+                items.pop()
+            if not items:
+                return base
+            return mk_app("getitem", [base, items[0] if len(items) == 1 else Tup(items)])
+        if idx == _full:
+            return base
+        if idx == Const(None) and isinstance(base, App) and base.fn == "getitem" and len(base.args) == 2 and base.args[1] == Const(None):
+            return App("getitem", (base.args[0], Tup([Const(None), Const(None)])))  # x[None][None] = x[None, None]
+        args = [base, idx]
         if isinstance(base, App) and base.fn == "getitem" and len(base.args) == 2 and isinstance(base.args[1], Tup) and len(base.args[1].items) == 2:
             # inserting a unit axis and taking it out again: x[:, None][:, 0] = x ; t[None, :][0] = t ; t[None, None][0] = t[None]
             b0, (p0, p1) = base.args[0], base.args[1].items
